@@ -659,14 +659,19 @@ func (server *Server) registerCoreExecutors() {
 			return nil, err
 		}
 
-		start, startEx, err := nextRangeScoreIndexArgument(cmd, "start", args)
+		// Whether the range is a pair of scores or a pair of indexes is only known after the options.
+		startArg, err := nextStringArgument(cmd, "start", args)
 		if err != nil {
 			return nil, err
 		}
 
-		stop, stopEx, err := nextRangeScoreIndexArgument(cmd, "stop", args)
+		stopArg, err := nextStringArgument(cmd, "stop", args)
 		if err != nil {
 			return nil, err
+		}
+
+		if len(startArg) == 0 || len(stopArg) == 0 {
+			return nil, newInvalidArgumentError(cmd, "range", errors.New("empty"))
 		}
 
 		opt, err := nextRangeOptionArguments(cmd, args)
@@ -675,12 +680,28 @@ func (server *Server) registerCoreExecutors() {
 		}
 
 		if opt.BYSCORE {
+			start, startEx, err := parseRangeScoreArgument(cmd, "start", startArg)
+			if err != nil {
+				return nil, err
+			}
+			stop, stopEx, err := parseRangeScoreArgument(cmd, "stop", stopArg)
+			if err != nil {
+				return nil, err
+			}
 			opt.MINEXCLUSIVE = startEx
 			opt.MAXEXCLUSIVE = stopEx
 			return server.userCommandHandler.ZRangeByScore(conn, key, start, stop, opt)
 		}
 
-		return server.userCommandHandler.ZRange(conn, key, int(start), int(stop), opt)
+		start, err := strconv.Atoi(startArg)
+		if err != nil {
+			return nil, newInvalidArgumentError(cmd, "start", err)
+		}
+		stop, err := strconv.Atoi(stopArg)
+		if err != nil {
+			return nil, newInvalidArgumentError(cmd, "stop", err)
+		}
+		return server.userCommandHandler.ZRange(conn, key, start, stop, opt)
 	})
 
 	server.RegisterExexutor("ZREVRANGE", func(conn *Conn, cmd string, args Arguments) (*Message, error) {
